@@ -238,8 +238,11 @@ fn check_periodic(rep: &Report, cn: &Cn, domain: [f64; 2], pts: &[[f64; 2]]) -> 
         if !seen.insert(v.uuid) {
             bad.push("an input uuid occurs twice".into());
         }
-        // every vertex lies in the half-open box and is congruent to its input (the periodic builder may add a
-        // deterministic sub-resolution perturbation, so congruence is judged to 1e-8 of the period)
+        // every vertex lies in the half-open box and is congruent to its input. Two documented perturbations apply:
+        // the periodic builder's deterministic sub-resolution offset (<= 2^-32 of the period) and the insertion
+        // retry (+-(axis+1) * 1e-8 * local scale, local scale <= the 3x3 tiling's cell extent), so congruence is
+        // judged to 1e-6 of the period (the first version used 1e-8 and reported a retry perturbation of 1.6e-8
+        // in the thorough tier: a false alarm)
         if let Some(i) = verts.iter().position(|x| x.uuid() == v.uuid) {
             for ax in 0..2 {
                 let (x, w, l) = (pts[i][ax], v.c[ax], domain[ax]);
@@ -247,7 +250,7 @@ fn check_periodic(rep: &Report, cn: &Cn, domain: [f64; 2], pts: &[[f64; 2]]) -> 
                     bad.push(format!("vertex coordinate {w:e} is outside the half-open box [0, {l:e})"));
                 }
                 let r = (x - w) / l;
-                if (r - r.round()).abs() > 1e-8 {
+                if (r - r.round()).abs() > 1e-6 {
                     bad.push(format!("vertex coordinate {w:e} is not congruent to its input {x:e} modulo {l:e}"));
                 }
                 if v.data != format!("{:?}", Some(i as i32)) {
